@@ -176,6 +176,8 @@ class WriterTable:
         if not (rets and isinstance(rets[-1].value, ast.Name) and rets[-1].value.id == self.outs[0]):
             raise Unknown('tie writer does not return its token list')
         consts = hoisted_consts(fn, loop, ivar, seq)
+        if self.is_lazy(fn, loop, ivar):
+            return self.lazy(fn, loop, ivar, evar, seq, inits, consts, resolver)
         foreign = [k for k, v in inits.items() if k not in consts and any(isinstance(x, ast.Call) and isinstance(x.func, ast.Name) and x.func.id == 'len' for x in ast.walk(v))]
         self.table = {}
         st = self.states[0]
@@ -213,6 +215,139 @@ class WriterTable:
                         raise Unknown('tie writer emits %r' % (v,))
                     pre, suf = v[1], v[2]
                     self.table[(s, t, last)] = (self.cls(pre, suf), (pre, suf), env[st])
+
+    def is_lazy(self, fn, loop, ivar):
+        """does the writer decorate the token emitted before (out[-1] += ')') or read the previous tie bit?"""
+        for n in ast.walk(fn):
+            if isinstance(n, ast.Subscript) and isinstance(n.value, ast.Name):
+                if n.value.id in self.outs and isinstance(n.slice, ast.UnaryOp):
+                    return True
+                if n.value.id == self.tiep and isinstance(n.slice, ast.BinOp) and isinstance(n.slice.op, ast.Sub) and isinstance(n.slice.left, ast.Name) and n.slice.left.id == ivar:
+                    return True
+        return False
+
+    def lazy(self, fn, loop, ivar, evar, seq, inits, consts, resolver):
+        """A writer that closes a run late: step i may add a suffix to the token of step i - 1 (and the code after the loop to
+        the last token).  The table is rebuilt in the eager form: the decoration of token i is its own prefix/suffix plus what
+        the NEXT step (or the code after the loop) adds to it, which must not depend on the next entry's tie bit.  Writer
+        state = (state variable, previous tie bit); it counts as 'inside a tie' when the run is still open after that."""
+        st = self.states[0]
+        post = []
+        seen_loop = False
+        for s_ in fn.body:
+            if s_ is loop:
+                seen_loop = True
+            elif seen_loop and not isinstance(s_, ast.Return):
+                post.append(s_)
+
+        def step(s, prev, t, last):
+            def atom(n, env):
+                if isinstance(n, ast.Subscript) and isinstance(n.value, ast.Name):
+                    if n.value.id == self.tiep and isinstance(n.slice, ast.Name) and n.slice.id == ivar:
+                        return t
+                    if n.value.id == self.tiep and isinstance(n.slice, ast.BinOp) and isinstance(n.slice.op, ast.Sub) and isinstance(n.slice.left, ast.Name) \
+                            and n.slice.left.id == ivar and isinstance(n.slice.right, ast.Constant) and n.slice.right.value == 1:
+                        if prev is None:
+                            raise Raises('the tie bit before the first entry is read (index -1 wraps around to the last entry)')
+                        return prev
+                    if n.value.id == self.listp and isinstance(n.slice, ast.Name) and n.slice.id == ivar:
+                        return ('num',)
+                if isinstance(n, ast.Compare) and len(n.ops) == 1 and isinstance(n.left, ast.Name) and n.left.id == ivar and isinstance(n.comparators[0], ast.Constant) \
+                        and n.comparators[0].value == 0:
+                    first = prev is None
+                    tb = {ast.Gt: not first, ast.NotEq: not first, ast.Eq: first, ast.LtE: first, ast.GtE: True, ast.Lt: False}
+                    if type(n.ops[0]) in tb:
+                        return tb[type(n.ops[0])]
+                if isinstance(n, ast.Compare):
+                    return last_test(n, ivar, seq, consts, last)
+                return NOATOM
+            fe = FiniteEval(atom, lists=self.outs)
+            fe.resolver = resolver
+            env = {st: s}
+            if evar:
+                env[evar] = ('num',)
+            try:
+                fe.run(loop.body, env)
+            except Stop as e:
+                if e.kind != 'continue':
+                    raise Unknown('tie writer leaves its loop (%s)' % e.kind)
+            except Raises as r:
+                return ('BAD', str(r), None, s)
+            apps = [a for a in fe.actions if a[0] == 'append']
+            sufs = [a for a in fe.actions if a[0] == 'suffix_last']
+            if len(apps) != 1:
+                return ('BAD', 'emits %d tokens for one entry' % len(apps), None, env[st])
+            own_at = fe.actions.index(apps[0])
+            before = ''.join(a[2] for a in fe.actions[:own_at] if a[0] == 'suffix_last')
+            after = ''.join(a[2] for a in fe.actions[own_at + 1:] if a[0] == 'suffix_last')
+            if before and prev is None:
+                return ('BAD', 'decorates the token before the first entry', None, env[st])
+            v = apps[0][2]
+            if isinstance(v, tuple) and v and v[0] == 'num':
+                v = ('tok', '', '')
+            if isinstance(v, str) or not (isinstance(v, tuple) and v[0] == 'tok'):
+                raise Unknown('tie writer emits %r' % (v,))
+            return ('OK', (v[1], v[2] + after), before, env[st])
+
+        def finish(s):
+            fe = FiniteEval(lambda n, env: NOATOM, lists=self.outs)
+            fe.resolver = resolver
+            env = {st: s}
+            try:
+                fe.run(post, env)
+            except Stop:
+                pass
+            return ''.join(a[2] for a in fe.actions if a[0] == 'suffix_last')
+
+        raw = {}
+        todo = [(self.init, None)]
+        while todo:
+            key = todo.pop()
+            if key in raw:
+                continue
+            raw[key] = {}
+            for t in (0, 1):
+                for last in (False, True):
+                    r = step(key[0], key[1], t, last)
+                    raw[key][(t, last)] = r
+                    if r[0] == 'OK' and not last and (r[3], t) not in raw:
+                        todo.append((r[3], t))
+
+        def closes(key):
+            """suffix the following step adds to the token emitted on reaching `key` (None when it depends on that step)"""
+            outs_ = {r[2] for (t2, l2), r in raw[key].items() if r[0] == 'OK'}
+            if any(r[0] == 'BAD' for r in raw[key].values()) and not outs_:
+                return ''
+            return outs_.pop() if len(outs_) == 1 else None
+
+        class WS(tuple):
+            def __bool__(self):
+                return bool(self[2])
+
+        def ws(key):
+            if key[1] is None:
+                return WS((key[0], None, bool(key[0])))
+            c = closes(key)
+            return WS((key[0], key[1], bool(key[0]) and not c))
+
+        self.table = {}
+        for key, rows in raw.items():
+            for (t, last), r in rows.items():
+                if r[0] == 'BAD':
+                    self.table[(ws(key), t, last)] = ('BAD', r[1], ws(key))
+                    continue
+                pre, suf = r[1]
+                if last:
+                    extra = finish(r[3])
+                    nxt = ws(key)
+                else:
+                    extra = closes((r[3], t))
+                    if extra is None:
+                        raise Unknown('the suffix added to an entry depends on the entry that follows it')
+                    nxt = ws((r[3], t))
+                dec = (pre, suf + extra)
+                self.table[(ws(key), t, last)] = (self.cls(*dec), dec, nxt)
+        self.init = ws((self.init, None))
 
     def stateless(self, fn, loop, ivar, evar, seq, inits, resolver):
         """A writer without a state variable: the decoration of entry i is a formula of the tie bits at i and i - 1 (possibly
@@ -437,11 +572,12 @@ def explore(wtable, winit, reader, check_writer=True):
             continue
         seen.add(state)
         w, r, pending, first = state
+        wstate, w = w, bool(w)
         for t in (0, 1):
             for last in (False, True):
                 trans += 1
-                cls, dec, w2 = wtable[(w, t, last)]
-                step = trace + ((w, t, last, cls),)
+                cls, dec, w2 = wtable[(wstate, t, last)]
+                step = trace + ((wstate, t, last, cls),)
                 if cls == 'BAD':
                     viol.append(('writer', dec, step))
                     continue
